@@ -260,6 +260,12 @@ func (c *Client) validateVirtualChannelFundingProposal(
 		return errors.New("cannot have locked funds")
 	}
 
+	// Validate dimensions.
+	numParts := len(prop.Initial.Params.Parts)
+	if prop.Initial.State.Valid() != nil || prop.Initial.State.NumParts() != numParts || len(prop.Initial.Sigs) != numParts {
+		return errors.New("participants, balances and signatures do not match")
+	}
+
 	// Validate signatures.
 	for i, sig := range prop.Initial.Sigs {
 		for _, part := range prop.Initial.Params.Parts[i] {
@@ -277,8 +283,8 @@ func (c *Client) validateVirtualChannelFundingProposal(
 	}
 
 	// Validate index map.
-	if len(prop.Initial.Params.Parts) != len(prop.IndexMap) {
-		return errors.New("index map: invalid length")
+	if err := validIndexMap(prop.IndexMap, numParts, ch.state().NumParts()); err != nil {
+		return err
 	}
 
 	// Assert not contained before
